@@ -4,7 +4,7 @@
    every run.  Tied to specs.py / runner.py / conventions.py by harness/props/c12.py. *)
 From Coq Require Import List ZArith Bool Arith.
 From YV Require Import Common.Corr Model.Resolution Model.Naming Gen.Registry
-                       Lemmas.ResolutionSpec Lemmas.ResolutionWinner Lemmas.ResolutionBind.
+                       Lemmas.ResolutionSpec Lemmas.ResolutionWinner Lemmas.ResolutionBind Lemmas.ResolutionRank.
 Import ListNotations.
 Close Scope Z_scope.
 
@@ -22,15 +22,26 @@ Theorem C12_binding_depends_on_assignment : forall (sub : tag -> tag -> bool) ps
 Proof. exact get_delegate_given. Qed.
 
 (* every split point: the first k slots positional (omitted parameters as empty slots), all other given
-   parameters by keyword - for every signature (hidden parameters anywhere, defaults, aliases,
-   keyword-only, *, ** ; any dictionary order) whose bound names are distinct and whose visible positional
-   parameters read distinct argument slots, every assignment and all k1, k2 *)
+   parameters by keyword - for every well-formed signature (hidden parameters anywhere, defaults, aliases,
+   keyword-only, *, ** ; ANY dictionary order; well-formed = the yaql-side names of the bound parameters
+   are distinct and the positions are distinct), every assignment and all split points k1, k2 *)
 Theorem C12_spellings_bind_equal : forall (sub : tag -> tag -> bool) ps (s : assignment) k1 k2,
-  NoDup (bound_names ps) -> rank_inj ps -> (forall n, s n <> Some ANoValue) ->
+  NoDup (bound_names ps) -> NoDup (all_pos ps) -> (forall n, s n <> Some ANoValue) ->
   k1 <= nvis ps -> k2 <= nvis ps ->
   get_delegate sub ps (spell_args ps s k1) (spell_kw ps s k1) =
   get_delegate sub ps (spell_args ps s k2) (spell_kw ps s k2).
-Proof. exact spellings_bind_equal. Qed.
+Proof.
+  exact (fun sub ps s k1 k2 N P Hs K1 K2 =>
+           spellings_bind_equal sub ps s k1 k2 N (rank_inj_of_positions ps P) Hs K1 K2).
+Qed.
+
+(* the positional-fix table is right: the argument slot read by a visible positional parameter
+   (its position minus the number of hidden parameters to its left) increases strictly with the
+   position, so distinct visible parameters read distinct slots *)
+Theorem C12_slots_increase : forall ps p q a b,
+  NoDup (all_pos ps) -> In p ps -> ppos p = Some a -> is_hidden (pkind p) = false ->
+  ppos q = Some b -> a < b -> rank ps p < rank ps q.
+Proof. exact rank_mono. Qed.
 
 (* an omitted default and the same value given explicitly (plain or as a constant expression) deliver
    the same thing to an eagerly evaluated typed parameter *)
@@ -88,12 +99,8 @@ Definition sig1 : list param :=
 Example sig1_names : NoDup (bound_names sig1).
 Proof. repeat constructor; cbn; intuition discriminate. Qed.
 
-Example sig1_rank_inj : rank_inj sig1.
-Proof.
-  intros p q Hp Hq. cbn in Hp, Hq.
-  repeat (destruct Hp as [<-|Hp]; [|]); try contradiction;
-  repeat (destruct Hq as [<-|Hq]; [|]); try contradiction; cbn; intros; try discriminate; reflexivity.
-Qed.
+Example sig1_positions : NoDup (all_pos sig1).
+Proof. repeat constructor; cbn; intuition discriminate. Qed.
 
 Example sig1_nvis : nvis sig1 = 3. Proof. reflexivity. Qed.
 
@@ -118,6 +125,7 @@ Proof. vm_compute. repeat split. Qed.
 
 Print Assumptions C12_binding_depends_on_assignment.
 Print Assumptions C12_spellings_bind_equal.
+Print Assumptions C12_slots_increase.
 Print Assumptions C12_explicit_default.
 Print Assumptions C12_kind_exclusive.
 Print Assumptions C12_alias_is_convention.
